@@ -453,6 +453,23 @@ def bounded(tier, seed):
             return None
         run.case('C04:pncmfopen delegates to stack in argument order', tuple(os.path.basename(p) for p in paths), t_mf)
 
+        def t_mf_repeat():
+            # the same path named more than once is stacked as often as it is named
+            from PseudoNetCDF import pncmfopen
+            order = [0, 1, 0, 2, 1]
+            m = pncmfopen([paths[i] for i in order], stackdim='t', format='netcdf')
+            for vk, v in files[0].variables.items():
+                if 't' in v.dimensions:
+                    ax = list(v.dimensions).index('t')
+                    exp = np.ma.concatenate([files[i].variables[vk][...] for i in order], axis=ax)
+                    e = H.arr_equal(m.variables[vk][...], exp)
+                    if e:
+                        return 'pncmfopen with repeated paths, variable %s: %s' % (vk, e)
+            if len(m.dimensions['t']) != sum(len(files[i].dimensions['t']) for i in order):
+                return 'stacked dimension has length %d, the named files add up to %d' % (len(m.dimensions['t']), sum(len(files[i].dimensions['t']) for i in order))
+            return None
+        run.case('C04:pncmfopen with a path named more than once', 'order 0,1,0,2,1', t_mf_repeat)
+
         def t_mfd():
             # open_mfdataset is a classmethod of the READER class (cls(path) opens each file)
             from PseudoNetCDF.core._files import netcdf
